@@ -165,23 +165,32 @@ def d3(chk, prog):
         def subtract(it, obj, other, ev=ev):
             # the whole exclude table, as read: a one-base region (far narrower than the minimum gap) must still be cut out
             ev.append(("subtract", other.meta.get("filename") if other.data.n == 1 else f"{other.meta.get('filename')} with {other.data.n} of 1 rows"))
-            return obj
+            # the result is a new table that remembers what has been cut out of it: every exclude file must be cut out of the result of
+            # the previous subtraction (not of the unfiltered scan again), and the join must see the table with all of them removed
+            ev.append(("minus-before", list(obj.meta.get("_minus", ()))))
+            res = GA(obj.cls, obj.data, obj.data.n, dict(obj.meta, _minus=list(obj.meta.get("_minus", ())) + [other.meta.get("filename")]))
+            return res
         model.method_prims["subtract"] = subtract
 
         def join(it, regions, gap, ev=ev):
             ev.append(("join", gap))
+            ev.append(("joined-minus", list(getattr(regions, "meta", {}).get("_minus", ())) if isinstance(regions, GA) else "not the subtracted table"))
             return [("chr1", 0, 100)]
         model.prims[f"{ACC}.join_regions"] = join
         it = Interp(prog, model)
         out = tb.guard(lambda: it.run(fi.qn, ["genome.fa", excludes, 7777, skip]), f"skip={skip} excludes={excludes}")
         if out is None:
             continue
+        chain = [x[1] for x in ev if x[0] == "minus-before"]
+        joined = [x[1] for x in ev if x[0] == "joined-minus"]
+        ev[:] = [x for x in ev if x[0] not in ("minus-before", "joined-minus")]
+        chained = chain == [list(excludes[:i]) for i in range(len(excludes))] and joined == [list(excludes)]
         kinds = [x[0] for x in ev]
         want_kinds = ["scan", "table"] + [k for _ in excludes for k in ("read", "subtract")] + ["join", "table"]
         first_table = next(x for x in ev if x[0] == "table")[1]
-        ok = kinds == want_kinds and first_table == (canonical if skip else contigs) and [x[1] for x in ev if x[0] == "subtract"] == list(excludes) \
+        ok = chained and kinds == want_kinds and first_table == (canonical if skip else contigs) and [x[1] for x in ev if x[0] == "subtract"] == list(excludes) \
             and [x for x in ev if x[0] == "join"] == [("join", 7777)] and all(x[2] in ("bed3", "bed") for x in ev if x[0] == "read")
-        tb.cell(ok, dict(skip_noncanonical=skip, excludes=list(excludes), stages=kinds, read_as=[x[2] for x in ev if x[0] == "read"], contigs_after_filter=first_table))
+        tb.cell(ok, dict(skip_noncanonical=skip, excludes=list(excludes), stages=kinds, cut_out_before_each_subtraction=chain, cut_out_of_the_joined_table=joined, read_as=[x[2] for x in ev if x[0] == "read"], contigs_after_filter=first_table))
     tb.done("access does not run scan -> contig filter (iff asked) -> exclude -> join, or filters the wrong contigs")
 
 
